@@ -601,6 +601,23 @@ def _formatted(repo, rep):
               where=wh)
     rep.check("inst.__dict__ = exc.__dict__" in text, "R12.5", site,
               "the original attributes are kept", construct="dict", where=wh)
+    # the copy is allocated by __new__ of some class; BaseException.__new__
+    # ignores arguments, every other allocator (the original class's own,
+    # used where BaseException's is refused: OSError, ExceptionGroup) may
+    # require the original ones -- ExceptionGroup does
+    allocs = [n for n in ast.walk(f.node) if isinstance(n, ast.Call)
+              and isinstance(n.func, ast.Attribute)
+              and n.func.attr == "__new__"]
+    bare = [n for n in allocs if src(n.func.value) != "BaseException"
+            and not any(isinstance(a, ast.Starred) and
+                        src(a.value) == "exc.args" for a in n.args)]
+    rep.check(len(allocs) >= 2 and not bare, "R12.5", site, "an allocator "
+              "other than BaseException.__new__ is handed the original "
+              "arguments (an ExceptionGroup cannot be allocated without "
+              "them; the failure would leave the exception undecorated)",
+              construct="allocator-args", where=L.where(
+                  f, bare[0].lineno) if bare else wh,
+              detail=", ".join(src(n) for n in bare))
     rep.check("'__str__': formatter" in text, "R12.5", site,
               "the message is produced by the formatter",
               construct="formatter", where=wh)
